@@ -43,7 +43,14 @@ type Report struct {
 	replayCase string
 	done       chan struct{}
 	finished   bool
+
+	ownMemLimit atomic.Int64 // MiB, set by SetMemLimitMB
 }
+
+// SetMemLimitMB lets a harness whose own memory footprint is small and known put a tight limit on
+// the live heap of its process: exceeding it (after a forced collection) aborts the exploration with
+// a violation that names the ParallelFor indices in flight.
+func (r *Report) SetMemLimitMB(mb int) { r.ownMemLimit.Store(int64(mb)) }
 
 // NewReport reads VERIF_TIER, VERIF_SEED, VERIF_BUDGET_S, VERIF_REPLAY_CASE.
 func NewReport(id string) *Report {
@@ -322,6 +329,7 @@ func (r *Report) watchdog() {
 	}
 	last, lastChange := progress.Load(), time.Now()
 	overLimit := 0
+	need := 3
 	var ms runtime.MemStats
 	for {
 		select {
@@ -331,6 +339,10 @@ func (r *Report) watchdog() {
 		}
 		if p := progress.Load() + r.evals.Load(); p != last {
 			last, lastChange = p, time.Now()
+		}
+		if own := r.ownMemLimit.Load(); own > 0 {
+			// the harness knows its own footprint: its limit is believed at the first reading
+			memLimit, need = uint64(own)<<20, 1
 		}
 		runtime.ReadMemStats(&ms)
 		if ms.HeapInuse > memLimit {
@@ -346,7 +358,7 @@ func (r *Report) watchdog() {
 		}
 		why := ""
 		switch {
-		case ms.HeapInuse > memLimit && overLimit >= 3:
+		case ms.HeapInuse > memLimit && overLimit >= need:
 			why = fmt.Sprintf("the Go heap grew to %d MiB (limit %d MiB)", ms.HeapInuse>>20, memLimit>>20)
 		case time.Since(lastChange) > stall:
 			why = fmt.Sprintf("no case finished for %s", time.Since(lastChange).Round(time.Second))
